@@ -37,6 +37,16 @@ def sources(tier, wd, out, per_focus_quick=250, per_focus_thorough=1200, foci=FO
                            for k, g in enumerate(sorted(perm)))
             res.append(("family/gradient-order", '<svg xmlns="http://www.w3.org/2000/svg" viewBox="0 0 16 16">'
                         '<defs>%s</defs>%s</svg>' % (defs, body), None))
+    unsupported = ['<image width="3" height="3"/>', '<text>t</text>', '<mask id="m"><rect width="2" height="2"/></mask>',
+                   '<filter id="f"/>', '<foo:bar xmlns:foo="http://example.com/foo"/>',
+                   '<foreignObject width="2" height="2"/>', '<a><rect width="2" height="2"/></a>',
+                   '<switch><rect width="2" height="2"/></switch>']
+    for u in unsupported:
+        for body in ('<rect width="4" height="4" fill="red"/>%s', '%s<rect width="4" height="4"/>', '%s',
+                     '<rect width="4" height="4"/><rect x="2" y="2" width="4" height="4" fill="blue"/>%s',
+                     '<g opacity="0.5"><rect width="4" height="4"/>%s</g><rect x="6" width="3" height="3"/>'):
+            res.append(("family/unsupported-in-group", '<svg xmlns="http://www.w3.org/2000/svg" viewBox="0 0 16 16">'
+                        '<g opacity="0.5">%s</g><rect x="9" y="9" width="5" height="5"/></svg>' % (body % u), None))
     for path in sorted(glob.glob(os.path.join(common.REPO, "tests", "*.svg"))):
         try:
             res.append(("tests/" + os.path.basename(path), open(path).read(), None))
@@ -136,7 +146,9 @@ def run_structural(out, prop, tier, okverdicts, rule, classify, foci=FOCI, nq=25
         recs, meta = [], []
         jobs = []
         for i, (name, svg, adoc) in enumerate(srcs):
-            if tier == "quick":
+            if name.startswith("family/"):
+                opts = OPTS_QUICK
+            elif tier == "quick":
                 k = int(hsh(svg), 16)
                 opts = [OPTS_QUICK[k % 8], OPTS_QUICK[(k // 8 + 3) % 8]] if prop != "C07" else [OPTS_QUICK[k % 8]]
             else:
